@@ -185,6 +185,8 @@ type Node struct {
 	shuttingDown  bool
 	burstDone     bool
 	spiStep       int
+	dueTrigger    *hv
+	dueStep       int
 	spiCalls      int
 	syncedTo      map[uint64]bool
 	inbox         []*Msg // messages handed to the main loop and not yet taken by the (controlled) worker
@@ -477,7 +479,7 @@ func (w *World) startNode(n *Node) {
 	} else {
 		n.ctrl = nil
 	}
-	n.inbox, n.curMsg, n.wm, n.maxSync, n.updates, n.shuttingDown = nil, nil, hv{}, -1, nil, false
+	n.inbox, n.curMsg, n.wm, n.maxSync, n.updates, n.shuttingDown, n.dueTrigger = nil, nil, hv{}, -1, nil, false, nil
 	n.ctx, n.cancel = context.WithCancel(context.Background())
 	n.lh = leanhelix.NewLeanHelix(cfg, n.onCommit, n.onNewRound)
 	n.lh.Run(n.ctx)
